@@ -583,7 +583,9 @@ def input_pool(rnd, schema):
         return sorted(pool) + ABBR_INPUTS["vscript"][:4]
     if schema == "vtable":
         return ["aa", "ab", "ba", "bb", "abc", "c", "aaab", "aabb", "abba", "abcaa", "aaaa", "abab"]
-    return ["ni", "hao", "nihao", "zhongguo", "women", "shijie", "wo", "de", "nihaoshijie", "womende", "nini"] + ABBR_INPUTS["luna_pinyin"][:4]
+    # shenmeshijian / shenmeshihou, zhonghuarenmin...: phrases of four and more syllables that share their first three syllables
+    return ["ni", "hao", "nihao", "zhongguo", "women", "shijie", "wo", "de", "nihaoshijie", "womende", "nini",
+            "shenmeshijian", "shenmeshihou"] + ABBR_INPUTS["luna_pinyin"][:4]
 
 
 # (input of five or more syllables, its first four syllables): a phrase learned for the long input is offered as a
@@ -619,6 +621,11 @@ def gen_c10_history(rnd, schema, steps, pool):
             kind = "delcomp"
             L += ["L 1 %s" % x, "K 1 %s" % x, "Q 1 %d" % rnd.choice([0, 1, 2, 3]), "F 1", "L 1 %s" % x,
                   "L 1 %s" % prefix, "K 1 %s" % prefix, "Y 1", "R 1", "L 1 %s" % prefix, "L 1 %s" % x]
+        elif schema != "vtable" and rnd.random() < 0.08:
+            # round 5: assemble a phrase from a partial selection, then delete the element that was selected first from the list of
+            # ITS OWN code (its record was only touched - commit count 0 - by the assembled commit)
+            kind = "delelem"
+            L += ["L 1 %s" % x, "K 1 %s" % x, "Q 1 %d" % rnd.choice([0, 1, 1, 2, 3]), "F 1", "V 1", "L 1 %s" % x]
         elif r < 0.42:
             kind = "select"
             L += ["L 1 %s" % x, "K 1 %s" % x, "P 1 %d" % rnd.choice([0, 0, 1, 1, 2, 3, 4, 5, 7]), "F 1", "L 1 %s" % x]
